@@ -19,6 +19,40 @@ func pfIs(f sipsp.PField, s gen.Span) bool {
 // tokenised exactly as generated, for header capacity hcap, with or without
 // typed bodies.
 func checkHdrBlock(w *core.Worker, m *gen.MsgSpec, hcap int, withPV bool, cuts []int, pollute []byte) bool {
+	return checkHdrBlockAt(w, m, hcap, withPV, cuts, pollute, 0)
+}
+
+// checkHdrBlockAt: the message text starts at offset shift of the buffer (cuts are
+// relative to the text).
+func checkHdrBlockAt(w *core.Worker, m0 *gen.MsgSpec, hcap int, withPV bool, cuts0 []int, pollute []byte, shift int) bool {
+	m := m0
+	cuts := cuts0
+	if shift > 0 {
+		// shifted copy of the spec
+		mm := *m0
+		mm.Raw = make([]byte, shift+len(m0.Raw))
+		for i := 0; i < shift; i++ {
+			mm.Raw[i] = "x: y\r\n"[i%6]
+		}
+		copy(mm.Raw[shift:], m0.Raw)
+		mm.FLEnd += shift
+		mm.HdrEnd += shift
+		mm.Hdrs = make([]gen.HdrSpec, len(m0.Hdrs))
+		for i, h := range m0.Hdrs {
+			h.Name.S += shift
+			h.Name.E += shift
+			h.Val.S += shift
+			h.Val.E += shift
+			h.Line.S += shift
+			h.Line.E += shift
+			mm.Hdrs[i] = h
+		}
+		m = &mm
+		cuts = make([]int, len(cuts0))
+		for i, c := range cuts0 {
+			cuts[i] = c + shift
+		}
+	}
 	var hl sipsp.HdrLst
 	var pv sipsp.PHdrVals
 	hl.Hdrs = make([]sipsp.Hdr, hcap)
@@ -169,6 +203,13 @@ func RunC07(r *core.Run) {
 					pollute = blk[:rr.Intn(len(blk)+1)]
 					w.Inc("blocks_on_reused_lists")
 				}
+				if k == 1 && rr.Intn(8) == 0 && len(m.Raw) < 4000 {
+					// the same block far into a large buffer (offsets beyond 2^15 / close to 2^16)
+					sh := []int{32700, 32768, 33003, 50000, 65535 - len(m.Raw)}[rr.Intn(5)]
+					w.Inc("blocks_at_large_offsets")
+					ok = checkHdrBlockAt(w, m, hc, withPV, s.cuts, nil, sh)
+					continue
+				}
 				ok = checkHdrBlock(w, m, hc, withPV, s.cuts, pollute)
 			}
 		}
@@ -264,6 +305,30 @@ func structuralCheck(m *sipsp.PSIPMsg, buf []byte, start, n int, flags uint8) (c
 		}
 		if colon := bytes.IndexByte(buf[fend(h.Name):h.Val.Offs], ':'); colon < 0 {
 			return bad("header-value-line", fmt.Sprintf("header %d: no colon between Name and Val", i))
+		}
+	}
+	// first-of-type shortcuts: name at the start of a line, value inside that same line
+	for t := sipsp.HdrFrom; t < sipsp.HdrOther; t++ {
+		h := m.HL.GetHdr(t)
+		if h == nil || h.Missing() {
+			continue
+		}
+		li := -1
+		for k, ln := range lines {
+			if int(h.Name.Offs) == ln.S {
+				li = k
+				break
+			}
+		}
+		if li < 0 || !inside(h.Name, lines[li].S, lines[li].E) {
+			return bad("shortcut-name-line", fmt.Sprintf("GetHdr(%s): Name %v does not start a header line", t, h.Name))
+		}
+		if (h.Val.Offs != 0 || h.Val.Len != 0) && !inside(h.Val, fend(h.Name)+1, lines[li].E) {
+			fnd := ""
+			if (t == sipsp.HdrContact || t == sipsp.HdrPAI) && false {
+				fnd = "D6"
+			}
+			return "shortcut-value-line", fmt.Sprintf("GetHdr(%s) (%q): Val %v = %q is not inside that header's own line [%d,%d)", t, h.Name.Get(buf), h.Val, h.Val.Get(buf), lines[li].S, lines[li].E), fnd
 		}
 	}
 	// typed sub-fields nest
@@ -385,7 +450,7 @@ func structuralCheck(m *sipsp.PSIPMsg, buf []byte, start, n int, flags uint8) (c
 
 // RunC05 is the monitor for C05.
 func RunC05(r *core.Run) {
-	r.Rule = "case = one message that parses successfully (grammar-generated with repeated / multi-value Contact, P-Asserted-Identity, From headers emphasised, or a mutated corpus message that is still accepted), flags 0..7, any capacities, one-shot or chunked, on a new object or on one used for an abandoned other message and Reset()/Init(); the structural invariant is evaluated on the result: all fields inside [start, returned offset); first-line fields ordered; every stored header's Name at the start of and its Val inside that header's OWN logical line (line extents from an independent splitter), after the colon, trimmed (an empty value is the empty field); Name/URI/Params/Tag inside V, Tag inside Params, CSeq number before method inside the CSeq value; typed values equal the first header of their type's Val; every stored contact / identity value lies inside a Contact / PAI header value; Body starts after the blank line and ends at the returned offset; RawMsg == buf[start:offset], Buf == buf[:offset]; non-trivial = accepted messages; distinct by hash"
+	r.Rule = "case = one message that parses successfully (grammar-generated with repeated / multi-value Contact, P-Asserted-Identity, From headers emphasised, or a mutated corpus message that is still accepted), flags 0..7, any capacities, one-shot or chunked, on a new object or on one used for an abandoned other message and Reset()/Init(); the structural invariant is evaluated on the result: all fields inside [start, returned offset); first-line fields ordered; every stored header's Name at the start of and its Val inside that header's OWN logical line (line extents from an independent splitter), after the colon, trimmed (an empty value is the empty field); every first-of-type shortcut GetHdr(t) (also for headers beyond the array) has its Name at a line start and its Val inside that line; Name/URI/Params/Tag inside V, Tag inside Params, CSeq number before method inside the CSeq value; typed values equal the first header of their type's Val; every stored contact / identity value lies inside a Contact / PAI header value; Body starts after the blank line and ends at the returned offset; RawMsg == buf[start:offset], Buf == buf[:offset]; non-trivial = accepted messages; distinct by hash"
 	r.Assume = []string{"the independent splitter (ref.HeaderLines) implements: a logical line ends at CRLF / CR / LF not followed by SP or HT"}
 	corpus := loadCorpus()
 	n := r.Pick(1500000, 20000000)
